@@ -297,6 +297,15 @@ func (g *c18Gen) cert(name, state string) []byte {
 	ca := g.ca[g.rng.Intn(len(g.ca))]
 	pemBytes, _ := ca.Sign(vLeafSpec{DNS: []string{name}, NotBefore: na.Add(-90 * 24 * time.Hour), NotAfter: na,
 		Pub: &g.leafK.PublicKey, NoChain: g.rng.Intn(2) == 0})
+	if g.rng.Intn(4) == 0 {
+		// a chain that ends in a long-expired certificate (an old cross-signature CAs keep sending):
+		// the file is judged by its LEAF
+		old := nowSec.Add(-g.grace - time.Duration(1000+g.rng.Intn(400*24))*time.Hour)
+		extra, _ := ca.Sign(vLeafSpec{DNS: []string{"old-cross-sign.example"}, NotBefore: old.Add(-365 * 24 * time.Hour), NotAfter: old,
+			Pub: &g.leafK.PublicKey, NoChain: true})
+		pemBytes = append(pemBytes, extra...)
+		g.stats["cert_with_expired_chain_member"]++
+	}
 	g.stats["cert_"+state]++
 	return pemBytes
 }
